@@ -736,6 +736,12 @@ func (e *Engine) callMods(s *State, c *ssa.CallCommon, m *modSet, addBase func(s
 			}
 		}
 		// a local closure called through the variable it was bound to
+		if fn := localClosureOf(c.Value); fn != nil {
+			if spec, ok := e.specs[e.fnKey(fn)]; ok {
+				e.specMods(s, spec, fn, m, addBase)
+				return
+			}
+		}
 		if fn := localClosureOf(c.Value); fn != nil && e.inlinable(fn) && depth < maxInlineDepth {
 			for _, b := range fn.Blocks {
 				for _, in := range b.Instrs {
@@ -757,6 +763,15 @@ func (e *Engine) callMods(s *State, c *ssa.CallCommon, m *modSet, addBase func(s
 	key := e.fnKey(callee)
 	if spec, ok := e.specs[key]; ok {
 		e.specMods(s, spec, callee, m, addBase)
+		for _, pn := range spec.Inplace {
+			for i, p := range callee.Params {
+				if p.Name() == pn && i < len(c.Args) {
+					if u, ok := c.Args[i].(*ssa.UnOp); ok && u.Op == token.MUL {
+						e.addrMods(u.X, m, seenCell, addBase)
+					}
+				}
+			}
+		}
 		return
 	}
 	if ls := libSpecFor(callee); ls != nil {
